@@ -144,6 +144,11 @@ def run(ctx):
         # tables derived from the printed one (a conjugate through CDecay, a copy through CopyDecay) in the same file: printed
         # next to their source on the same parser object, every table shows its own lines
         targets = [mother]
+        if use_pdg and pdgname != mother and rng.random() < 0.5:
+            # a second block whose mother is an alias spelled like the PDG name: asked for by PDG name, the table shown is that of
+            # the particle the PDG name denotes (its EvtGen spelling), not the block that happens to be spelled like the request
+            doc.append(["alias", pdgname, mother])
+            doc.insert(rng.choice([0, len(doc)]), ["decay", pdgname, [["1", ["q1", "q2"], True, ["named", "VSS", None]]]])
         if not use_pdg and rng.random() < 0.35:
             doc.append(["chargeconj", mother, "anti-" + mother if gen.safe_label("anti-" + mother) else "Conj1"])
             doc.append(["cdecay", doc[-1][2]])
